@@ -284,3 +284,11 @@ def c06_scalar_voxel_size(ctx, shape):
         ctx.ensure("divergence of the scalar-size grid == that of the list-size grid", eq(Ds, Dl))
         ctx.ensure("every divergence entry is 0 or +-h^(dim-1)", and_(*[or_(eq(e, 0), eq(e, h ** (dim - 1)), eq(e, -(h ** (dim - 1)))) for e in Ds.flat]))
     ctx.ensure("voxel size per axis", eq(list(gs.voxel_size), [h] * dim))
+
+
+@ob("C06.dep_scipy", kind="B", samples=(2, 6), funcs=[], tol=1e-12, cite="(validation of assumed dependency contracts)",
+    note="the scipy.sparse coordinate-constructor / diags model and the scipy.stats.hmean stub against the installed scipy")
+def c06_dep_scipy(ctx):
+    from contracts import deps_validation as dv
+    dv.dep_coo(ctx)
+    dv.dep_hmean(ctx)
